@@ -248,9 +248,10 @@ Box<ITV>::expand_space_dimension(const Variable var,
   // The space dimension of the resulting Box should not
   // overflow the maximum allowed space dimension.
   if (m > max_space_dimension() - space_dim) {
-    throw_invalid_argument("expand_dimension(v, m)",
-                           "adding m new space dimensions exceeds "
-                           "the maximum allowed space dimension");
+    // Note: std::length_error is the documented exception.
+    throw std::length_error("PPL::Box::expand_space_dimension(v, m):\n"
+                            "adding m new space dimensions exceeds "
+                            "the maximum allowed space dimension.");
   }
 
   // To expand the space dimension corresponding to variable `var',
